@@ -105,6 +105,24 @@ static void make_gt(tsnpd_net *g, char letter, int ports, int nfreq,
     }
 }
 
+/* remove the line break that ends the file, if one does; 1 if removed */
+static int chop_final_newline(const char *path)
+{
+    FILE *fp = fopen(path, "r+");
+    long n;
+    int ch, rv = 0;
+
+    if (fp == NULL)
+	return 0;
+    if (fseek(fp, -1L, SEEK_END) == 0 && (n = ftell(fp)) >= 1 &&
+	    (ch = getc(fp)) == '\n') {
+	fflush(fp);
+	rv = ftruncate(fileno(fp), n) == 0;
+    }
+    fclose(fp);
+    return rv;
+}
+
 /* ---- respelling dimensions ----------------------------------------- */
 
 enum { D_UNIT, D_ENC, D_MATFMT, D_ORDER, D_CASE, D_COMMENTS, D_BLANK,
@@ -447,6 +465,14 @@ static void run(int tier, long idx, vf_result *r)
 		}
 		++tried;
 		load_and_compare(&g, path, what, family, r);
+		/* the same file without the line break at its end */
+		if (r->status == VF_OK && (c->dima == D_BLANK ||
+			    c->dimb == D_BLANK) && chop_final_newline(path)) {
+		    char w2[160];
+		    snprintf(w2, sizeof(w2), "%.120s+no-final-newline", what);
+		    ++tried;
+		    load_and_compare(&g, path, w2, family, r);
+		}
 	    }
 	}
     } else {
@@ -490,6 +516,13 @@ static void run(int tier, long idx, vf_result *r)
 		}
 		++tried;
 		load_and_compare(&g, path, what, family, r);
+		if (r->status == VF_OK && (c->dima == N_BLANK ||
+			    c->dimb == N_BLANK) && chop_final_newline(path)) {
+		    char w2[160];
+		    snprintf(w2, sizeof(w2), "%.120s+no-final-newline", what);
+		    ++tried;
+		    load_and_compare(&g, path, w2, family, r);
+		}
 	    }
 	}
     }
